@@ -45,6 +45,8 @@ type kvAddData struct {
 // AddVertex adds an edge to the graph, if it already exists
 // in the graph, it is replaced
 func (kgdb *KVInterfaceGDB) AddVertex(vertices []*gdbi.Vertex) error {
+	kgdb.kvg.writeLock.Lock()
+	defer kgdb.kvg.writeLock.Unlock()
 	var bulkErr *multierror.Error
 	inserted := 0
 	// vertices that replace a stored vertex under another label are written
@@ -216,6 +218,8 @@ func insertEdge(tx kvi.KVBulkWrite, idx *kvindex.KVIndex, graph string, edge *gr
 // AddEdge adds an edge to the graph, if the id is not "" and in already exists
 // in the graph, it is replaced
 func (kgdb *KVInterfaceGDB) AddEdge(edges []*gdbi.Edge) error {
+	kgdb.kvg.writeLock.Lock()
+	defer kgdb.kvg.writeLock.Unlock()
 	var bulkErr *multierror.Error
 	inserted := 0
 	// edges that replace a stored edge with other endpoints or another label
@@ -257,6 +261,8 @@ func (kgdb *KVInterfaceGDB) BulkAdd(stream <-chan *gdbi.GraphElement) error {
 	// endpoints is written in its own transaction before the batch is opened:
 	// the stores do not allow nested writes from inside a batch
 	flush := func() {
+		kgdb.kvg.writeLock.Lock()
+		defer kgdb.kvg.writeLock.Unlock()
 		inserted := 0
 		rest := batch[:0]
 		for _, elem := range batch {
@@ -318,6 +324,8 @@ func (kgdb *KVInterfaceGDB) BulkAdd(stream <-chan *gdbi.GraphElement) error {
 
 // DelEdge deletes edge with id `key`
 func (kgdb *KVInterfaceGDB) DelEdge(eid string) error {
+	kgdb.kvg.writeLock.Lock()
+	defer kgdb.kvg.writeLock.Unlock()
 	ekey := kgdb.findEdgeKey(eid)
 	if ekey == nil {
 		return fmt.Errorf("Edge Not Found")
@@ -338,6 +346,8 @@ func (kgdb *KVInterfaceGDB) DelEdge(eid string) error {
 
 // DelVertex deletes vertex with id `key`
 func (kgdb *KVInterfaceGDB) DelVertex(id string) error {
+	kgdb.kvg.writeLock.Lock()
+	defer kgdb.kvg.writeLock.Unlock()
 	vid := VertexKey(kgdb.graph, id)
 	skeyPrefix := SrcEdgePrefix(kgdb.graph, id)
 	dkeyPrefix := DstEdgePrefix(kgdb.graph, id)
